@@ -209,3 +209,81 @@ def target_fn(text):
         raise AnchorLost("validate_transition_target_state: statements outside the transcription rules")
     return ("fn validate_transition_target_state(transition: &Transition, fsm: &FsmImplementation, state_names: &NameSet, fsm_pipe: &FsmPipe) -> (res: Option<()>)\n"
             "  ensures res.is_some() <==> (target_of(*transition) is None || has(*state_names, target_of(*transition).unwrap())),\n{\n" + b + "\n}\n")
+
+
+COV_MODEL = """
+pub struct Pattern { pub id: u64 }
+pub struct Transition { pub id: u64 }
+pub struct Guard { pub condition: Pattern, pub transitions: Vec<Transition> }
+pub struct Comment { pub id: u64 }
+pub enum FsmArm { Guard(Pattern, Vec<Guard>), Transition(Pattern, Vec<Transition>), Comment(Comment) }
+pub struct FsmImplementation { pub arms: Vec<FsmArm> }
+pub struct FsmPipe { pub id: u64 }
+pub struct NameSet { pub id: u64 }
+pub uninterp spec fn target_ok(t: Transition, names: NameSet) -> bool;     // validate_transition_target_state accepts t
+#[verifier::external_body]
+pub fn validate_transition_target_state(transition: &Transition, fsm: &FsmImplementation, state_names: &NameSet, fsm_pipe: &FsmPipe) -> (o: Option<()>)
+  ensures o.is_some() <==> target_ok(*transition, *state_names),
+{ unimplemented!() }
+// `&[]`
+#[verifier::external_body]
+pub fn empty_slice<'a>() -> (r: &'a [Transition]) ensures r@.len() == 0, { &[] }
+pub open spec fn all_ok(ts: Seq<Transition>, n: int, names: NameSet) -> bool { forall|j: int| 0 <= j < n ==> target_ok(#[trigger] ts[j], names) }
+pub open spec fn guards_ok(gs: Seq<Guard>, n: int, names: NameSet) -> bool { forall|g: int| 0 <= g < n ==> all_ok((#[trigger] gs[g]).transitions@, gs[g].transitions@.len() as int, names) }
+// every transition of the arm -- of a plain arm, or of EVERY guard of a guarded arm -- has an acceptable target
+pub open spec fn arm_ok(arm: FsmArm, names: NameSet) -> bool {
+  match arm {
+    FsmArm::Comment(_) => true,
+    FsmArm::Transition(_, ts) => all_ok(ts@, ts@.len() as int, names),
+    FsmArm::Guard(_, gs) => guards_ok(gs@, gs@.len() as int, names),
+  }
+}
+pub open spec fn arms_ok(arms: Seq<FsmArm>, n: int, names: NameSet) -> bool { forall|i: int| 0 <= i < n ==> arm_ok(#[trigger] arms[i], names) }
+"""
+
+
+def coverage_fn(text):
+    """`validate_fsm_state_coverage` from `for arm in &fsm.arms {` to the end (DROPPED: the collection of the declared state names and
+    the start-state check above it): `for x in &xs` / `for x in xs` -> index loops, `&[]` -> `empty_slice()`, and the match arm
+    `FsmArm::Comment(_) => continue,` of `let transitions = match arm {..}` -> `=> empty_slice(),` (checked: only the loop over
+    `transitions` follows the `let`), `Ok(())` -> `Some(())`."""
+    sig, body = extract_fn(text, "validate_fsm_state_coverage")
+    a = find_code(body, r"for\s+arm\s+in\s+&fsm\.arms\s*\{")
+    if not a:
+        raise AnchorLost("validate_fsm_state_coverage: the loop over fsm.arms not found")
+    b = re.sub(r"//[^\n]*", "", body[a.start():body.rindex("}")]).replace("\r", "")
+    ml = re.search(r"let\s+transitions\s*=\s*match\s+arm\s*\{", b)
+    if not ml:
+        raise AnchorLost("validate_fsm_state_coverage: `let transitions = match arm {` not found")
+    e = match_brace(b, ml.end() - 1)
+    after = b[e:].lstrip()
+    if not after.startswith(";"):
+        raise AnchorLost("validate_fsm_state_coverage: unexpected text after the match")
+    rest = after[1:].strip()
+    mf = re.match(r"for\s+(\w+)\s+in\s+transitions\s*\{", rest)
+    if not mf or re.sub(r"[\s}]", "", rest[match_brace(rest, mf.end() - 1):]) not in ("Ok(())", "Some(())"):
+        raise AnchorLost("validate_fsm_state_coverage: statements other than the loop over `transitions` follow the `let`")
+    head = b[:e]
+    head, nc = re.subn(r"FsmArm::Comment\(_\)\s*=>\s*continue\s*,", "FsmArm::Comment(_) => empty_slice(),", head)
+    b = head + b[e:]
+    b = re.sub(r"&\[\]", "empty_slice()", b)
+    b = re.sub(r"for\s+arm\s+in\s+&fsm\.arms\s*\{", "for a_ in 0..fsm.arms.len() { let arm = &fsm.arms[a_];", b)
+    b = re.sub(r"for\s+guard\s+in\s+guards\s*\{", "for g_ in 0..guards.len() { let guard = &guards[g_];", b)
+    b = re.sub(r"for\s+transition\s+in\s+&guard\.transitions\s*\{", "for j_ in 0..guard.transitions.len() { let transition = &guard.transitions[j_];", b)
+    b = re.sub(r"for\s+transition\s+in\s+transitions\s*\{", "for t_ in 0..transitions.len() { let transition = &transitions[t_];", b)
+    b = re.sub(r"\bOk\s*\(", "Some(", b)
+    b = err_to_none(b)
+    if re.search(r"\b(Ok|Err|continue)\b", b) or len(vlib.find_all_code(b, r"\bfor\b")) != 4:
+        raise AnchorLost("validate_fsm_state_coverage: the traversal is outside the transcription rules")
+    N = "*state_names"
+    loops = [
+        ("    invariant arms_ok(fsm.arms@, a_ as int, %s)," % N, ""),
+        ("    invariant a_ < fsm.arms@.len(), *arm == fsm.arms@[a_ as int], *arm is Guard, arm->Guard_1 == *guards, arms_ok(fsm.arms@, a_ as int, %s), guards_ok(guards@, g_ as int, %s)," % (N, N), ""),
+        ("    invariant g_ < guards@.len(), *guard == guards@[g_ as int], a_ < fsm.arms@.len(), *arm == fsm.arms@[a_ as int], *arm is Guard, arm->Guard_1 == *guards,\n"
+         "      arms_ok(fsm.arms@, a_ as int, %s), guards_ok(guards@, g_ as int, %s), all_ok(guard.transitions@, j_ as int, %s)," % (N, N, N), ""),
+        ("    invariant a_ < fsm.arms@.len(), *arm == fsm.arms@[a_ as int], arms_ok(fsm.arms@, a_ as int, %s), all_ok(transitions@, t_ as int, %s),\n"
+         "      all_ok(transitions@, transitions@.len() as int, %s) <==> arm_ok(*arm, %s)," % (N, N, N, N), ""),
+    ]
+    b = vmat.inject(b, loops)
+    return ("fn validate_fsm_state_coverage_traversal(fsm: &FsmImplementation, state_names: &NameSet, fsm_pipe: &FsmPipe) -> (res: Option<()>)\n"
+            "  ensures res.is_some() <==> arms_ok(fsm.arms@, fsm.arms@.len() as int, %s),\n{\n" % N + b + "\n}\n")
